@@ -58,7 +58,7 @@ NewEntry(nm, kind, m, lv, large, enc, dt, mode, hdr, crc, us, cs) ==
    [name |-> nm, kind |-> kind, method |-> m, level |-> lv, large |-> large, enc |-> enc,
     dt |-> dt, mode |-> mode, sys |-> 3, crc |-> crc, usize |-> us, csize |-> cs,
     hdr |-> hdr, dstart |-> hdr + HdrLen(nm, large), lx |-> <<>>, cx |-> <<>>, fresh |-> TRUE,
-    rawsrc |-> "", klen |-> 0, elo |-> 0, lname |-> nm.id]
+    rawsrc |-> "", klen |-> 0, elo |-> 0, lname |-> nm.id, aesinner |-> -1, ae2 |-> FALSE]
 
 ZeroCrc == "00000000"
 LastIx(w) == Len(w.files)
@@ -227,7 +227,10 @@ OldEntry(L, i) ==
     enc |-> FEnc(c.flags), dt |-> <<c.date, c.time>>, mode |-> c.eattr_hi, sys |-> SysOf(c.vmade), crc |-> c.crc,
     usize |-> c.usize, csize |-> c.csize, hdr |-> L.prefix + c.off, dstart |-> lf.dstart,
     lx |-> <<>>, cx |-> [j \in 1..Len(c.extra) |-> [id |-> c.extra[j].id, len |-> c.extra[j].len, h |-> c.extra[j].h]],
-    fresh |-> FALSE, rawsrc |-> lf.rawcrc, klen |-> 0, elo |-> c.eattr_lo, lname |-> lf.name.id]
+    fresh |-> FALSE, rawsrc |-> lf.rawcrc, klen |-> 0, elo |-> c.eattr_lo, lname |-> lf.name.id,
+    \* (an old WinZip-AES entry: its header method field stays 99 - as in its local header, defect D19 - and the reader reports the
+    \*  real method named by its AE-x record)
+    aesinner |-> IF c.aes # <<>> THEN c.aes[1].inner ELSE -1, ae2 |-> (c.aes # <<>> /\ c.aes[1].ver = 2)]
 NewAppendF(L, strict) ==
    [Init0 EXCEPT !.files = [i \in 1..NEntries(L) |-> OldEntry(L, i)],
                  !.comment = [id |-> L.eocd.comment.id, len |-> L.eocd.comment.len],
